@@ -41,6 +41,7 @@ POOL = [  # (key used in ops, schema name, version or None = unversioned access 
     ("person", "core.person", (0, 1, 0)),
     ("alpha", "verif.alpha", (1, 0, 0)),  # child of verif.base 1.1.0 whose name sorts before the parent's
     ("caps", "verifcaps.thing", (1, 0, 0)),  # provided by a distribution named 'Verif_Caps'
+    ("famkid", "verif.famkid", (0, 1, 0)),  # its parent verif.fam 0.1.0 has a newer version 0.2.0 with another parent
 ]
 INVALID = [("aux", "verif.aux", (1, 0, 0)), ("unknown", "verif.nope", None), ("unknownv", "verif.base", (3, 0, 0))]
 
@@ -792,6 +793,8 @@ class CSession:
                 return
 
             src_m = tree.lookup(src)
+            if op[3] == "data" and (src_m is None or src_m.kind != "d"):
+                return  # (a group as data= has no sensible meaning: h5py stores the list of its keys)
 
             def fm(model):
                 if op[3] == "data" and src_m is not None and src_m.kind == "d":
